@@ -137,6 +137,17 @@ Theorem C02_from_composite_adopts : forall h s app,
 Proof. exact tc_from_composite_adopts. Qed.
 Print Assumptions C02_from_composite_adopts.
 
+(* hence the standard's octets, whatever the caller's header said about type, flag and length *)
+Theorem C02_from_sp_header_layout : forall pt sh dl service subservice apid seq source_id ack app h,
+  tc_args_valid service subservice apid seq source_id ack app ->
+  sph_new pt apid seq dl sh SF_UNSEG 0 = Ok h ->
+  exists t', tc_pack (tc_from_sp_header h service subservice app source_id ack)
+             = Ok (tc_layout service subservice apid seq source_id ack app, t') /\
+    tc_packet_len (tc_from_sp_header h service subservice app source_id ack)
+      = len (tc_layout service subservice apid seq source_id ack app).
+Proof. exact tc_from_sp_header_layout. Qed.
+Print Assumptions C02_from_sp_header_layout.
+
 (* non-vacuity: a TM-typed, flag-less header of the wrong length handed to from_sp_header *)
 Example C02_from_sp_header_inhabited :
   exists h t, sph_new PT_TM 5 7 99 0 SF_UNSEG 0 = Ok h /\ tc_new 17 1 5 [1;2] 7 3 15 = Ok t /\
